@@ -12,6 +12,7 @@ def handle (j : Json) : Json :=
   | some "scopetree" => Ops.scopetreeOp j
   | some "reload" => Ops.reloadOp j
   | some "fsparse" => Ops.fsparseOp j
+  | some "xtpl" => Ops.xtplOp j
   | some "ping" => Json.mkObj [("pong", true)]
   | _ => Json.mkObj [("bad", "unknown op")]
 
